@@ -342,3 +342,18 @@ fn convert_chars_to_range(chars: &[(char, char)]) -> Vec<CharRange> {
         .map(|&(start, end)| CharRange::closed(start, end))
         .collect_vec()
 }
+
+#[cfg(any(grex_verif, kani))]
+pub(crate) mod verif_forward {
+    pub(crate) fn is_digit(c: char) -> bool {
+        super::is_digit(c)
+    }
+
+    pub(crate) fn is_word(c: char) -> bool {
+        super::is_word(c)
+    }
+
+    pub(crate) fn is_space(c: char) -> bool {
+        super::is_space(c)
+    }
+}
